@@ -978,7 +978,7 @@ const FILLER: &[&str] = &[
     ":", "0", "1", "-", "\t", "q", "Q", "試", "\u{10fffe}", ".", "*",
 ];
 
-fn gen_line(rng: &mut Rng, pats: &[String], long: bool) -> String {
+fn gen_line(rng: &mut Rng, pats: &[String], long: bool, alpha: Option<&[&str]>) -> String {
     let mut s = String::new();
     let kind = rng.below(10);
     if kind == 0 {
@@ -1010,7 +1010,7 @@ fn gen_line(rng: &mut Rng, pats: &[String], long: bool) -> String {
             cs.pop();
             s.extend(cs);
         } else {
-            s.push_str(*rng.pick(FILLER));
+            s.push_str(*rng.pick(alpha.unwrap_or(FILLER)));
         }
     }
     if long {
@@ -1035,8 +1035,15 @@ pub struct GenCfg {
 pub fn generate(seed: u64, cfg: &GenCfg) -> Scenario {
     let mut rng = Rng::new(seed);
     // patterns: non-empty, duplicate-free, no line breaks
-    let many = !cfg.small && rng.chance(1, 25);
-    let np = if cfg.small { rng.range(1, 4) } else if many { rng.range(150, 400) } else { rng.range(1, 12) };
+    let many = !cfg.small && rng.chance(1, 10);
+    // alphabet of a large set: dense (few letters, longer patterns: many states with several
+    // children, several double-array blocks) or wide
+    let many_alpha: &[&str] = match rng.below(3) {
+        0 => &["a", "b", "c", "d"],
+        1 => &["a", "b", "c", "d", "e", "é", "世", " "],
+        _ => FILLER,
+    };
+    let np = if cfg.small { rng.range(1, 4) } else if many { rng.range(40, 500) } else { rng.range(1, 12) };
     let mut patterns: Vec<String> = vec![];
     for _ in 0..np * 4 {
         if patterns.len() >= np {
@@ -1044,8 +1051,8 @@ pub fn generate(seed: u64, cfg: &GenCfg) -> Scenario {
         }
         let p = if many {
             // hundreds of patterns: the automaton of daacfind spans several blocks
-            let n = rng.range(2, 5);
-            (0..n).map(|_| *rng.pick(FILLER)).collect::<String>()
+            let n = if many_alpha.len() <= 8 { rng.range(2, 8) } else { rng.range(2, 5) };
+            (0..n).map(|_| *rng.pick(many_alpha)).collect::<String>()
         } else if rng.chance(3, 4) {
             rng.pick(WORDS).to_string()
         } else {
@@ -1072,14 +1079,21 @@ pub fn generate(seed: u64, cfg: &GenCfg) -> Scenario {
     let cr_run = rng.below(100) < cfg.cr_percent;
     let mut long_budget = if cfg.allow_long_lines && rng.chance(1, 12) { 1 } else { 0 };
     let mut gen_lines = |rng: &mut Rng| -> Vec<String> {
-        let n = if cfg.small { rng.range(0, 6) } else { *rng.pick(&[0usize, 1, 2, 5, 5, 10, 20, 40]) };
+        let n = if cfg.small {
+            rng.range(0, 6)
+        } else if many {
+            // walk many of the automaton's paths
+            rng.range(30, 90)
+        } else {
+            *rng.pick(&[0usize, 1, 2, 5, 5, 10, 20, 40])
+        };
         (0..n)
             .map(|_| {
                 let long = long_budget > 0 && rng.chance(1, 4);
                 if long {
                     long_budget -= 1;
                 }
-                let mut l = gen_line(rng, &patterns, long);
+                let mut l = gen_line(rng, &patterns, long, if many { Some(many_alpha) } else { None });
                 if cr_run && rng.chance(1, 3) {
                     l.push('\r');
                 }
